@@ -4,12 +4,16 @@ Streams (model `Wpull.Warc` vs the real code in ctx.repo):
   nvr       NameValueRecord(normalize_overrides=NAME_OVERRIDES): set/add ops -> bytes()
   ser       WARCRecord with given fields and block -> bytes(record)
   offset    HTTPWARCRecorderSession._find_payload_offset(block)
+  blockpos  oracle only: set_length_and_maybe_checksums + write_record with block files (BytesIO, file, temp file,
+            GzipFile) handed over at offset 0 / middle / end
+  ytdl      oracle only: the real youtube-dl coprocessor Session._write_warc_metadata over fake *.info.json files
   recorder  whole lives of the real WARCRecorder driven through the recorder
             sessions' event methods (see warc_common.py); files read back by an
             independent strict gzip / WARC reader, digests recomputed with hashlib
   client    oracle only: the real HTTP client + recorder over harness/fakenet.py
 """
 import io
+import os
 import compat  # noqa: F401
 from runner import enc, Infra
 from engines import warc_common as wc
@@ -150,6 +154,179 @@ def stream_offset(ctx, n):
             ctx.disagree('offset', {'block': b}, rep, real)
 
 
+# ------------------------------------------------------------------ records handed over by other callers
+def _open_block(kind, directory, content, pos, rng):
+    """a block file of the kinds wpull's callers hand to the recorder, positioned at `pos`"""
+    import gzip
+    import tempfile
+    if kind == 'bytesio':
+        f = io.BytesIO(content)
+    elif kind == 'file':
+        path = os.path.join(directory, 'blk-%d.bin' % rng.getrandbits(40))
+        with open(path, 'wb') as w:
+            w.write(content)
+        f = open(path, 'rb')
+    elif kind == 'tempfile':
+        f = tempfile.NamedTemporaryFile(dir=directory, prefix='blk-', suffix='.tmp')
+        f.write(content)
+        f.seek(0)
+    else:   # 'gzip': how close() hands over the log
+        path = os.path.join(directory, 'blk-%d.gz' % rng.getrandbits(40))
+        with gzip.GzipFile(path, 'wb') as w:
+            w.write(content)
+        f = gzip.GzipFile(filename=path)
+    if pos:
+        f.read(pos)       # a handle that has been read before, as a caller that inspects the content leaves it
+    return f
+
+
+def check_blockpos(ctx, case):
+    """WARCRecorder.set_length_and_maybe_checksums + write_record with block files at offset 0 / middle / end:
+    the record written must be complete (Content-Length = the block as written, digest of that block) and the
+    block is the bytes from the handed position to the end."""
+    import random
+    import shutil
+    import tempfile
+    from wpull.warc.recorder import WARCRecorder, WARCRecorderParams
+    from wpull.warc.format import WARCRecord
+    rng = random.Random(case['seed'])
+    base = os.environ.get('TMPDIR') or tempfile.gettempdir()
+    directory = tempfile.mkdtemp(prefix='wpull-verif-warcb-', dir=base)
+    fails = []
+    try:
+        rec = WARCRecorder(os.path.join(directory, wc.PREFIX), params=WARCRecorderParams(
+            compress=case['compress'], temp_dir=directory, log=False, digests=case['digests'], cdx=False))
+        expect = []
+        for kind, n, where, poff in case['records']:
+            content = bytes(rng.randrange(256) for _ in range(n))
+            pos = {'start': 0, 'middle': n // 2, 'end': n}[where]
+            f = _open_block(kind, directory, content, pos, rng)
+            r = WARCRecord()
+            r.set_common_fields('resource', 'application/octet-stream')
+            r.fields['WARC-Target-URI'] = 'urn:x:%d' % len(expect)
+            r.block_file = f
+            rec.set_length_and_maybe_checksums(r, payload_offset=poff)
+            rec.write_record(r)
+            f.close()
+            expect.append((r.fields['WARC-Record-ID'].encode(), content[pos:], poff))
+        rec.close()
+        name = wc.PREFIX + ('.warc.gz' if case['compress'] else '.warc')
+        with open(os.path.join(directory, name), 'rb') as fh:
+            data = fh.read()
+        try:
+            recs = wc.read_warc_file(name, data, case['compress'])
+        except wc.Invalid as e:
+            fails.append(('invalid-record-sequence', 'compute_checksum' if case['digests'] else 'set_content_length',
+                          'block files handed over at %s: %s' % ([x[2] for x in case['records']], e)))
+            recs = []
+        by_id = {r.id: r for r in recs}
+        for rid, block, poff in (expect if recs else []):
+            r = by_id.get(rid)
+            if r is None:
+                fails.append(('record-missing', 'write_record', 'record %r not in the file' % rid))
+                continue
+            if r.block != block:
+                fails.append(('block-not-source-bytes', 'WARCRecord.__iter__',
+                              'record %r: block has %d bytes, the block file held %d from the handed position' % (rid, len(r.block), len(block))))
+            if case['digests']:
+                if r.get(b'WARC-Block-Digest') != b'sha1:' + wc.b32sha1(r.block):
+                    fails.append(('block-digest', 'compute_checksum', 'record %r: block digest is not that of the %d-byte block written' % (rid, len(r.block))))
+                if poff is not None and r.get(b'WARC-Payload-Digest') != b'sha1:' + wc.b32sha1(r.block[poff:]):
+                    fails.append(('payload-digest', 'compute_checksum', 'record %r: payload digest is not that of block[%d:]' % (rid, poff)))
+    finally:
+        shutil.rmtree(directory, ignore_errors=True)
+    ctx.case(('blockpos', repr(case)), tags=['blockpos:' + '+'.join(sorted({x[2] for x in case['records']}))] +
+             ['blockpos:' + x[0] for x in case['records']])
+    for kind, where, detail in fails:
+        ctx.fail(kind, where, {'stream': 'blockpos', 'blockpos': case}, detail)
+
+
+def stream_blockpos(ctx, n):
+    rng = ctx.subrng('blockpos')
+    cases = []
+    for i in range(n):
+        recs = []
+        for _ in range(rng.choice([1, 2, 3])):
+            size = rng.choice([0, 1, 10, 300, 4096, 9000])
+            recs.append([rng.choice(['bytesio', 'file', 'tempfile', 'gzip']), size, rng.choice(['start', 'start', 'middle', 'end']),
+                         rng.choice([None, None, 0, 3])])
+        cases.append({'seed': rng.getrandbits(32), 'compress': rng.random() < 0.5, 'digests': rng.random() < 0.7, 'records': recs})
+    for c in cases:
+        check_blockpos(ctx, c)
+    if cases:
+        ctx.sample({'stream': 'blockpos', 'case': cases[0]})
+
+
+def check_ytdl(ctx, case):
+    """The real youtube-dl coprocessor session's _write_warc_metadata over fake *.info.json files: one metadata record
+    per file, complete, whose block is the file's content."""
+    import random
+    import shutil
+    import tempfile
+    import types
+    from wpull.warc.recorder import WARCRecorder, WARCRecorderParams
+    from wpull.processor.coprocessor.youtubedl import Session
+    from wpull.url import URLInfo
+    rng = random.Random(case['seed'])
+    base = os.environ.get('TMPDIR') or tempfile.gettempdir()
+    directory = tempfile.mkdtemp(prefix='wpull-verif-warcy-', dir=base)
+    fails = []
+    try:
+        outdir = os.path.join(directory, 'ytdl')
+        os.mkdir(outdir)
+        prefix = os.path.join(outdir, 'tmp')
+        contents = []
+        for i, n in enumerate(case['files']):
+            if rng.random() < 0.7:
+                body = ('{"id": "v%d", "formats": [%s], "title": "t\u00e9"}' % (i, ', '.join('{"format_id": "%d"}' % j for j in range(n)))).encode()
+            else:
+                body = bytes(rng.randrange(256) for _ in range(n))
+            with open('%s.v%d.info.json' % (prefix, i), 'wb') as f:
+                f.write(body)
+            contents.append(body)
+        rec = WARCRecorder(os.path.join(directory, wc.PREFIX), params=WARCRecorderParams(
+            compress=case['compress'], temp_dir=directory, log=False, digests=case['digests'], cdx=False))
+        sess = Session.__new__(Session)
+        sess._item_session = types.SimpleNamespace(url_record=types.SimpleNamespace(url_info=URLInfo.parse('http://example.com/watch?v=1')))
+        sess._path_prefix = prefix
+        sess._warc_recorder = rec
+        sess._temp_dir = None
+        sess._write_warc_metadata()
+        rec.close()
+        name = wc.PREFIX + ('.warc.gz' if case['compress'] else '.warc')
+        with open(os.path.join(directory, name), 'rb') as fh:
+            data = fh.read()
+        try:
+            recs = wc.read_warc_file(name, data, case['compress'])
+        except wc.Invalid as e:
+            fails.append(('invalid-record-sequence', '_write_warc_metadata', '%d info.json files: %s' % (len(contents), e)))
+            recs = None
+        if recs is not None:
+            got = sorted(r.block for r in recs if r.type == b'metadata')
+            if got != sorted(contents):
+                fails.append(('block-not-source-bytes', '_write_warc_metadata',
+                              '%d info.json files of %r bytes, metadata record blocks of %r bytes'
+                              % (len(contents), sorted(len(c) for c in contents), sorted(len(g) for g in got))))
+            for r in recs:
+                if r.get(b'WARC-Block-Digest') is not None and r.get(b'WARC-Block-Digest') != b'sha1:' + wc.b32sha1(r.block):
+                    fails.append(('block-digest', 'compute_checksum', '%s record: digest is not that of its %d-byte block' % (r.type, len(r.block))))
+    finally:
+        shutil.rmtree(directory, ignore_errors=True)
+    ctx.case(('ytdl', repr(case)), tags=['ytdl:files=%d' % len(case['files'])])
+    for kind, where, detail in fails:
+        ctx.fail(kind, where, {'stream': 'ytdl', 'ytdl': case}, detail)
+
+
+def stream_ytdl(ctx, n):
+    rng = ctx.subrng('ytdl')
+    cases = [{'seed': rng.getrandbits(32), 'compress': rng.random() < 0.5, 'digests': rng.random() < 0.7,
+              'files': [rng.choice([0, 1, 5, 40, 3000]) for _ in range(rng.choice([1, 2, 2, 3]))]} for _ in range(n)]
+    for c in cases:
+        check_ytdl(ctx, c)
+    if cases:
+        ctx.sample({'stream': 'ytdl', 'case': cases[0]})
+
+
 # ------------------------------------------------------------------ recorder lives
 def stream_recorder(ctx, scenarios, pid=PID):
     outs = []
@@ -177,6 +354,10 @@ def replay(ctx, case, kind=None, where=None):
     elif s == 'client':
         from engines import warc_client
         warc_client.check_exchange(ctx, case['exchange'], ctx.pid)
+    elif s == 'blockpos':
+        check_blockpos(ctx, case['blockpos'])
+    elif s == 'ytdl':
+        check_ytdl(ctx, case['ytdl'])
     elif s == 'ser':
         pass
     else:
@@ -189,6 +370,8 @@ def run(ctx):
     stream_nvr(ctx, ctx.scale(1500, 30000))
     stream_ser(ctx, ctx.scale(400, 6000))
     stream_offset(ctx, ctx.scale(3000, 60000))
+    stream_blockpos(ctx, ctx.scale(150, 1200))
+    stream_ytdl(ctx, ctx.scale(60, 400))
     rng = ctx.rng
     stream_recorder(ctx, [wc.gen_scenario(rng) for _ in range(ctx.scale(400, 5000))])
     from engines import warc_client
